@@ -165,8 +165,9 @@ def key_certainly_present(ctx, pt, ins):
 
 
 class SortEvent:
-    def __init__(self, fn, stmt, target, src, deep=False, inplace=False):
+    def __init__(self, fn, stmt, target, src, deep=False, inplace=False, src_fn=None):
         self.fn, self.stmt, self.target, self.src, self.deep, self.inplace = fn, stmt, target, src, deep, inplace
+        self.src_fn = src_fn        # function in which `src` is to be read (a callee whose return value is the sorted copy)
 
 
 def sort_events(ctx, pt, fn):
@@ -176,6 +177,15 @@ def sort_events(ctx, pt, fn):
             info = sorted_copy_info(ctx.res, n.value, fn, fn.module)
             if info is not None:
                 out.append(SortEvent(fn, n, n.targets[0], info[0], info[1]))
+            elif isinstance(n.value, ast.Call):
+                # T = h(...)  where every return of the package function h is a sorted copy of one and the same expression
+                tg = [t[1] for t in ctx.res.call_targets(n.value, fn) if t[0] == "pkg"]
+                if len(tg) == 1 and not tg[0].is_generator:
+                    h = tg[0]
+                    rets = [r for r in own_nodes(h.node) if isinstance(r, ast.Return) and r.value is not None]
+                    infos = [sorted_copy_info(ctx.res, r.value, h, h.module) for r in rets]
+                    if rets and all(i is not None for i in infos) and len({norm(i[0]) for i in infos}) == 1:
+                        out.append(SortEvent(fn, n, n.targets[0], infos[0][0], any(i[1] for i in infos), src_fn=h))
         elif isinstance(n, ast.For):
             d = inplace_rekey(n)
             if d is not None:
@@ -322,15 +332,16 @@ def canonical_order(ctx, pt, site):
                 unordered.append((i, why))
         label = "/".join(p) if p else "<top level>"
         if not unordered:
-            # C06.2 / C06.3 per object
-            for o in sorted(objs, key=lambda x: x.where()):
+            # C06.2 / C06.3 per object; the order of something that is only the source of a sorted copy does not matter
+            shadowed = {so for o in objs if o.kind == "copy" and getattr(o, "sorted", False) for so in pt._copy_sources(o)}
+            for o in sorted(objs - shadowed, key=lambda x: x.where()):
                 nob += literal_order(ctx, pt, o, label, ins_here, site)
             continue
         # ---- C06.1: the path needs a re-keying before the dump
         nob += 1
         cands = []
         for ev in events:
-            src_objs = pt.pts(ev.src, ev.fn)
+            src_objs = pt.pts(ev.src, ev.src_fn or ev.fn)
             if src_objs and (src_objs & objs):
                 cands.append(ev)
             elif ev.deep and src_objs:
@@ -344,7 +355,7 @@ def canonical_order(ctx, pt, site):
         open_q = []
         for ev in cands:
             if ev.inplace:
-                touched = pt.pts(ev.src, ev.fn)
+                touched = pt.pts(ev.src, ev.src_fn or ev.fn)
                 unordered_objs = set()
                 for i, why in unordered:
                     if _within_stmt(ctx, i.node, ev.stmt):
@@ -354,8 +365,8 @@ def canonical_order(ctx, pt, site):
                     reasons.append("%s: orders %s in place, which is not (always) the dictionary that is dumped" % (norm(ev.stmt).split("\n")[0][:60], norm(ev.src)))
                     continue
             evp = p
-            if ev.deep and not (pt.pts(ev.src, ev.fn) & objs):
-                evp = next((p[:pre] for pre in range(len(p)) if pt.pts(ev.src, ev.fn) & paths.get(p[:pre], set())), p)
+            if ev.deep and not (pt.pts(ev.src, ev.src_fn or ev.fn) & objs):
+                evp = next((p[:pre] for pre in range(len(p)) if pt.pts(ev.src, ev.src_fn or ev.fn) & paths.get(p[:pre], set())), p)
             ok, why = check_sort_event(ctx, pt, site, ev, evp, objs | paths.get(evp, set()), all_ins, helpers, kp) if evp == p else \
                 check_sort_event(ctx, pt, site, ev, evp, paths.get(evp, set()), all_ins, helpers, kp, nested=objs)
             if ok:
@@ -371,7 +382,7 @@ def canonical_order(ctx, pt, site):
         if inpl:
             touched = set()
             for e in inpl:
-                touched |= pt.pts(e.src, e.fn)
+                touched |= pt.pts(e.src, e.src_fn or e.fn)
             for o in sorted(objs - touched, key=lambda x: x.where()):
                 nob += literal_order(ctx, pt, o, label, ins_here, site)
         if not verdict and open_q:
@@ -417,7 +428,16 @@ def check_sort_event(ctx, pt, site, ev, path, objs, all_ins, helpers, kp, nested
         if not al:
             return None, "in-place re-keying of `%s`: that it is the object stored under '%s' for every instance is not established" % (norm(ev.src), "/".join(path))
     # the re-keyed value must be stored back where the dump will find it
-    if path and not ev.inplace:
+    if path and not ev.inplace and isinstance(ev.target, ast.Name) and isinstance(ev.stmt, ast.Assign):
+        # sorted_x = dict(sorted(x.items())) ... {"key": sorted_x}: the copy itself sits at the path, and whatever else can sit
+        # there is only the (unsorted) source it was copied from
+        cobj = pt.objs.get(id(ev.stmt.value))
+        here = set(objs) - set(nested or ())
+        if cobj is not None and cobj in here and (here - {cobj}) <= set(pt._copy_sources(cobj)):
+            pass
+        else:
+            return False, "result is bound to the local %r, which is not (only) what the dumped structure holds under '%s'" % (ev.target.id, "/".join(path))
+    elif path and not ev.inplace:
         t = ev.target
         if not (isinstance(t, ast.Subscript) and const_str(t.slice) == last_key):
             return False, "result is not stored back under key %r" % last_key
